@@ -84,6 +84,11 @@ impl Check for C19 {
             // client mode: two different valid schemes pushed to the same session one after the other — the last
             // one is in force ("every such push during the life of the process")
             "double_push": g.chance(15),
+            // session mode: an earlier session of the same process has already been pushed (and has installed
+            // process-wide) the very scheme this session is about to be pushed — two sessions set up side by side
+            // announce the old scheme, the second push finds its scheme already installed and must still switch
+            // the session it arrives on
+            "preinstalled": g.chance(30),
             "racing": g.chance(50), "race_payloads": [*g.pick(&[1u64, 50, 300, 1200]), *g.pick(&[1u64, 50, 300, 1200])],
             "payloads": (0..10).map(|_| *g.pick(&[0u64, 1, 50, 300, 1200, 4000])).collect::<Vec<_>>()})
     }
@@ -124,7 +129,7 @@ impl Check for C19 {
         out
     }
     fn rule(&self) -> &'static str {
-        "one case = {built-in default factory touched before or not} x client scheme (built-in default or a seeded scheme) x 1-3 successive server schemes x 2-4 sessions x optional unparsable push; mode session (45%): real client Session against a real server Session with a differing (or, 15%, identical) scheme on plaintext recording pipes — the server must push iff the md5 differs, the packets the client writes after the push must satisfy the C05 acceptor under the pushed scheme; in half of these the push is adopted while one writer is parked inside the transport (write gate) and a second one is queued on the writer lock, whose packet must already follow the pushed scheme; mode client (55%): real Client against a scripted TLS server that records the md5 every new session announces, pushes its current scheme when it differs, switches schemes between sessions and may push garbage — later sessions must announce the pushed scheme, the pushed-to session must hold it, an unparsable push must change nothing (also when it is the only push: the server then holds the client's own scheme and later sessions must still announce it); every case is non-trivial; distinct = distinct (plan hash, poll-order fingerprint)"
+        "one case = {built-in default factory touched before or not} x client scheme (built-in default or a seeded scheme) x 1-3 successive server schemes x 2-4 sessions x optional unparsable push; mode session (45%): real client Session against a real server Session with a differing (or, 15%, identical) scheme on plaintext recording pipes — the server must push iff the md5 differs, the packets the client writes after the push must satisfy the C05 acceptor under the pushed scheme; in half of these the push is adopted while one writer is parked inside the transport (write gate) and a second one is queued on the writer lock, whose packet must already follow the pushed scheme; in 30% the pushed scheme was already installed process-wide by an earlier session's push and this session, which announced the old one, must still switch; mode client (55%): real Client against a scripted TLS server that records the md5 every new session announces, pushes its current scheme when it differs, switches schemes between sessions and may push garbage — later sessions must announce the pushed scheme, the pushed-to session must hold it, an unparsable push must change nothing (also when it is the only push: the server then holds the client's own scheme and later sessions must still announce it); every case is non-trivial; distinct = distinct (plan hash, poll-order fingerprint)"
     }
     fn real_components(&self) -> Vec<&'static str> {
         vec!["Session::handle_frame (Settings on the server, UpdatePaddingScheme on the client)", "PaddingFactory::default / update_default (process-wide default)", "Client::create_new_session (which scheme new sessions announce and use)", "write_with_padding (session mode)"]
@@ -144,6 +149,12 @@ async fn run_session(plan: &Value) -> Outcome {
     let client_raw = String::from_utf8_lossy(client_f.raw_scheme()).to_string();
     let same = plan["same_scheme"].as_bool().unwrap_or(false);
     let server_scheme = if same { client_raw.clone() } else { plan["server_schemes"][0].as_str().unwrap_or("stop=3\n0=10-20").to_string() };
+    if !same && plan["preinstalled"].as_bool().unwrap_or(false) {
+        // (client_f was taken before: this session still holds, and will announce, the old scheme)
+        if PaddingFactory::update_default(server_scheme.as_bytes()).is_ok() {
+            anytls_simnet::world::probe("c19.pushed_scheme_already_installed_by_an_earlier_session");
+        }
+    }
     let quiet = PipeCfg { capacity: 1 << 40, ..PipeCfg::default() };
     let (w_c2s, r_c2s, c2s) = pipe(quiet.clone());
     let (w_s2c, r_s2c, s2c) = pipe(quiet);
